@@ -244,7 +244,88 @@ def evaluate_lifted_limit(case):
     return Outcome(True, True, ["lifted_limit", "jobs=%d" % len(jobs)])
 
 
+@st.composite
+def concurrent_cases(draw, tier):
+    jobs = []
+    for _ in range(draw(st.integers(2, 4))):
+        calls = []
+        for _ in range(draw(st.integers(4, 12))):
+            op = draw(st.sampled_from(["add", "sub", "mul", "div", "div", "mul"]))
+            number = draw(decimals(120 if tier == "quick" else 400))
+            if len(number) > 600:
+                number = number[:600]
+            base = draw(st.integers(1 if op == "div" else 0, 9))
+            if op == "sub" and len(number) == 1 and int(number) < base:
+                base = 0
+            calls.append([op, number, str(base)])
+        jobs.append(calls)
+    return {"jobs": jobs, "rounds": draw(st.sampled_from([3, 6, 10]))}
+
+
+def evaluate_concurrent(case):
+    """Schedules: several threads call the four functions at the same time on their OWN numbers, with the interpreter
+    switching threads every microsecond; every single result must be the exact one (no shared work space)."""
+    import contextlib
+    import io
+    import sys
+    import threading
+    dsw = import_dsw()
+    functions = {"add": dsw.calculus_addition, "sub": dsw.calculus_subtraction,
+                 "mul": dsw.calculus_multiplication, "div": dsw.calculus_division}
+    expected = []
+    for calls in case["jobs"]:
+        row = []
+        for op, number, base in calls:
+            value, b = o.dec_to_int(number), int(base)
+            if op == "div":
+                row.append((o.int_to_dec(value // b), str(value % b)))
+            else:
+                row.append(o.int_to_dec({"add": value + b, "sub": value - b, "mul": value * b}[op]))
+        expected.append(row)
+    wrong, barrier = [], threading.Barrier(len(case["jobs"]))
+
+    def worker(index):
+        try:
+            barrier.wait(timeout=30)
+        except threading.BrokenBarrierError:
+            pass
+        for round_index in range(case["rounds"]):
+            for position, (op, number, base) in enumerate(case["jobs"][index]):
+                try:
+                    got = functions[op](number=number, base=base)
+                    got = tuple(got) if op == "div" else got
+                except Exception as exc:  # noqa - reported below
+                    got = "raised %s: %s" % (type(exc).__name__, exc)
+                if got != expected[index][position] and len(wrong) < 3:
+                    wrong.append((index, round_index, op, number, base, got, expected[index][position]))
+
+    old_interval = sys.getswitchinterval()
+    threads = [threading.Thread(target=worker, args=(i,), daemon=True) for i in range(len(case["jobs"]))]
+    try:
+        sys.setswitchinterval(1e-6)
+        with contextlib.redirect_stdout(io.StringIO()):
+            for thread in threads:
+                thread.start()
+            for thread in threads:
+                thread.join()
+    finally:
+        sys.setswitchinterval(old_interval)
+    labels = ["threads=%d" % len(case["jobs"]), "rounds=%d" % case["rounds"]]
+    if wrong:
+        index, round_index, op, number, base, got, want = wrong[0]
+        return bad("with %d threads calling concurrently, thread %d (round %d) got %s(%r.. [%d digits], %s) = %r, exact "
+                   "result %r" % (len(case["jobs"]), index, round_index, op, number[:40], len(number), base,
+                                  str(got)[:80], str(want)[:80]), labels)
+    return Outcome(True, len(case["jobs"]) >= 2, labels)
+
+
 SUBCHECKS = [
+    SubCheck("concurrent_calls", evaluate_concurrent, strategy=concurrent_cases, examples=(320, 3200), shards=(16, 16),
+             floors={"threads=4": 40}, timeout=120.0,
+             rule="Schedules: 2..4 threads each run 4..12 operations on their own numbers (up to 120 / 400 digits) for "
+                  "3..10 rounds at the same time, with the interpreter's switch interval set to one microsecond; "
+                  "every result of every thread is compared with exact integer arithmetic. Non-trivial: always (two "
+                  "or more threads)."),
     SubCheck("arith", evaluate, strategy=cases, examples=(20000, 400000), shards=(16, 16),
              floors={"carry": 2000, "len>3": 5000, "operand>4": 4000, "sub": 2000, "div": 2000, "len>4300": 100, "other_thread": 1000},
              rule=RULE),
